@@ -196,6 +196,17 @@ def writes_in_function(repo, inv, q, m, fn, cg=None):
                     cq = m.name + "." + head
                     if (cq, attr) in inv.class_attrs and d.count(".") == 1:
                         return "class:%s.%s" % (cq, attr)
+            if isinstance(b, ast.Name) and b.id in locs and b.id not in ("self", "cls"):
+                # obj.attr = dict(obj.attr) / {} / copy(...) earlier in this function: from then on obj.attr is this object's own container
+                for a_ in ast.walk(fn):
+                    if isinstance(a_, ast.Assign) and a_.lineno < getattr(base, "lineno", 0) and any(
+                            isinstance(t_, ast.Attribute) and t_.attr == attr and isinstance(t_.value, ast.Name) and t_.value.id == b.id for t_ in a_.targets):
+                        v_ = a_.value
+                        fresh = isinstance(v_, (ast.Dict, ast.List, ast.Set, ast.DictComp, ast.ListComp, ast.SetComp)) or (
+                            isinstance(v_, ast.Call) and (ast.unparse(v_.func) in ("dict", "list", "set", "copy", "deepcopy", "copy.copy", "copy.deepcopy") or
+                                                        (isinstance(v_.func, ast.Attribute) and v_.func.attr == "copy")))
+                        if fresh:
+                            return None
             if cg is not None and isinstance(b, ast.Name) and b.id in cg.local_types(m, fn):
                 tq = cg.local_types(m, fn)[b.id]
                 for cq in repo.mro(tq):
